@@ -223,7 +223,11 @@ func TestVerifDriverC20(t *testing.T) {
 	}
 	if r := os.Getenv("VERIF_DRIVER_REASON"); r != "" && r != "quick" {
 		// (3) concurrent creations in different subscopes
-		for round := 0; round < 40 && atomic.LoadInt64(&fails) == 0; round++ {
+		nRounds := 40
+		if r == "thorough" {
+			nRounds = 400
+		}
+		for round := 0; round < nRounds && atomic.LoadInt64(&fails) == 0; round++ {
 			root := newRootScope(ScopeOptions{OmitCardinalityMetrics: true}, 0)
 			var wg sync.WaitGroup
 			start := make(chan struct{})
